@@ -330,6 +330,17 @@ def do_replay(path, as_json=False):
 # main check driver
 
 
+COMMON_STUBS = [
+    "thread pools (every run): concurrent.futures.ThreadPoolExecutor / as_completed / wait and multiprocessing ThreadPool are the "
+    "simulator's cooperative pool -- tasks run one at a time to completion in a seeded order (no pre-emption inside a task; bare "
+    "threading.Thread is not intercepted); the shipped code starts no threads, so this only matters for changed trees",
+    "CLI steps run as simulated processes in this interpreter (launch.run_cli: patched argv, per-launch entropy, time.sleep costs "
+    "nothing); their output paths may hold a leftover file and one of their first HDF5 opens may fail once (faults leftover.*, "
+    "transient.h5.open) -- a step that dies on it is re-run, as a workflow engine would",
+    "OS entropy (os.urandom, random seeding, seedless default_rng) is served from the run's seed",
+]
+
+
 def run_check(prop, tier, runs=None, jobs=None, verif_seed=None, write_evidence=True,
               want_digests=False, quiet=False):
     t0 = time.time()
@@ -531,7 +542,7 @@ def run_check(prop, tier, runs=None, jobs=None, verif_seed=None, write_evidence=
                 faults_fired=agg_faults,
                 probes=agg_probes,
                 real_components=spec["real"],
-                stub_components=spec["stub"],
+                stub_components=list(spec["stub"]) + COMMON_STUBS,
                 known_findings_fired={s: c for s, (k, c) in known_fired.items()},
                 skipped_for_wall_cap=skipped_for_cap,
                 jobs=jobs,
